@@ -423,8 +423,10 @@ class VM:
             arr._elements = elements
             # Set prototype from Array constructor
             array_constructor = self.globals.get("Array")
-            if array_constructor and hasattr(array_constructor, "_prototype"):
-                arr._prototype = array_constructor._prototype
+            if isinstance(array_constructor, JSObject):
+                array_prototype = array_constructor.get("prototype")
+                if isinstance(array_prototype, JSObject):
+                    arr._prototype = array_prototype
             self.stack.append(arr)
 
         elif op == OpCode.BUILD_OBJECT:
